@@ -17,10 +17,13 @@ LEVEL_NOTE = ("Layered: the refractive indices n_p, n_s, n_i (beam.refractive_in
               "model fidelity is checked on generated cases, not proved. Theorems are over ℝ; rounding is measured only. "
               "The S predicates recompute wave vectors from first principles (own direction formula, CrystalSetup::index_along, "
               "n ω / c), also on SPDC objects after mutation histories (every idler-deriving route; K ties the object's idler to the model too). "
+              "The K op dk_from_angles takes the beams' ANGLES (phi(), theta_internal()) instead of direction(): it ties the "
+              "direction every wave vector of delta_k lies along to the angles the beam reports, after any history of setters. "
               "Counter-propagation and backward signal angles (|θs| > π/2) are tied by K only (outside the statement's "
               "quantifier).")
-OPS = {"opt_idler", "delta_k", "k_eff", "dk_wavevector"}
-TOL = {"opt_idler": ("ulp", 4), "delta_k": ("rel", 1e-12, 1e-8), "k_eff": ("ulp", 2), "dk_wavevector": ("ulp", 4)}
+OPS = {"opt_idler", "delta_k", "k_eff", "dk_wavevector", "dk_from_angles"}
+TOL = {"opt_idler": ("ulp", 4), "delta_k": ("rel", 1e-12, 1e-8), "k_eff": ("ulp", 2), "dk_wavevector": ("ulp", 4),
+       "dk_from_angles": ("rel", 1e-12, 1e-8)}
 DEFAULT_TOL = ("exact",)
 RULE = ("family dk: 11 crystals × 5 PM types × crystal θ ∈ [0,π/2] (plus {0, π/2, any}) × φ × T 0–100 °C × in-window pump/signal "
         "wavelengths with idler in-window (¼ degenerate; ¼ hand-built beams whose polarizations are independent of the PM label) × |θs| ≤ 0.3 (incl. 0 and log-small; 1/5 negative, own signatures) × φs × "
@@ -34,7 +37,20 @@ RULE = ("family dk: 11 crystals × 5 PM types × crystal θ ∈ [0,π/2] (plus {
         "type / pump λ / signal λ, θ, φ / poling period, sign, on-off / counter-propagation / crystal kind changes per step, all clauses "
         "after every step, centre and detuned frequency pair); n/60 JSON configs with idler auto + (crystal angle auto | poling auto) and "
         "a non-collinear signal through SPDC::from_json; finally up to 1500 recorded calls are re-evaluated in reverse and shuffled order "
-        "and must reproduce Δk and the idler bit-for-bit")
+        "and must reproduce Δk and the idler bit-for-bit; "
+        "a third of the direct cases build the signal (or the pump) elsewhere and MOVE it to the case's target with the public setters "
+        "(set_phi, set_theta_internal, set_angles, their two orders, set_vacuum_wavelength, set_frequency, set_polarization, "
+        "with_polarization, set_waist, all at once); n/30 setter sessions on ONE SPDC object: 2–5 rounds of 1–3 public mutators out of 36 "
+        "(signal: set_phi / set_theta_internal / set_theta_external / set_angles / set_vacuum_wavelength / set_frequency / "
+        "set_polarization / with_polarization / set_waist; pump: wavelength / frequency / polarization / waist; the 14 sweep setter paths "
+        "of SPDCIter on signal, pump, crystal and poling, applied through SPDCIter itself on a 1×1 grid; assign_/with_poling_period, "
+        "assign_/with_optimum_crystal_theta, assign_/with_optimum_periodic_poling, with_swapped_signal_idler, "
+        "assign_/with_optimal_waist_positions), the idler re-derived (try_new_optimum | optimum_idler | assign_optimum_idler | "
+        "with_optimum_idler) and ALL clauses checked (route/after-<last mutator>/<clause>); then on a copy 1–3 of 15 mutators of the IDLER "
+        "(set_phi, set_theta_internal, set_theta_external, set_angles, wavelength, frequency, polarization, the five idler.* sweep paths) or "
+        "tilts of the pump (set_theta_internal, set_phi, set_angles, |θp| ≤ 0.1) and the mismatch clause alone (centre + detuned pair); "
+        "every case and every object check also emits K dk_from_angles (Δk of the real code vs the model's Δk along "
+        "direction_from_polar of the angles the getters report)")
 RESIDUAL = "none beyond floating-point rounding (the index values are C01/C02's)"
 ASSUMPTIONS = ["refractive indices are inputs of the model (layer C02)", "UCUM base values: M = RAD = 1.0, so x*M/RAD is the identity"]
 CHECKER_MODULES = ["Spdc.Real.DeltaK"]
